@@ -61,6 +61,8 @@ pub struct SLayout {
     pub readme: String,
     /// write `expires` in the file with this UTC offset (minutes) instead of `Z` (same instant)
     pub offset_min: Option<i32>,
+    /// write every command with its arguments split again at white space (another value, same words)
+    pub resplit_commands: bool,
 }
 
 #[derive(Clone, Debug)]
@@ -152,14 +154,24 @@ pub fn meta_of(pool: &[KeyInfo], m: &SMeta) -> MetadataWrapper {
                 b = b.add_step(st);
             }
             for i in &l.inspect {
-                let cmd: Vec<String> = match &i.script {
-                    Some(s) => vec!["sh".into(), "-c".into(), s.clone()],
-                    None => vec!["/nonexistent/itv-no-such-command".into()],
-                };
+                let cmd = insp_cmd(l, i);
                 b = b.add_inspect(Inspection::new(&i.name).run(cmd.into()).expected_materials(i.mats.clone()).expected_products(i.prods.clone()));
             }
             MetadataWrapper::Layout(b.build().unwrap())
         }
+    }
+}
+
+/// the command vector of an inspection as the scenario means it
+pub fn insp_cmd(l: &SLayout, i: &SInsp) -> Vec<String> {
+    let cmd: Vec<String> = match &i.script {
+        Some(s) => vec!["sh".into(), "-c".into(), s.clone()],
+        None => vec!["/nonexistent/itv-no-such-command".into()],
+    };
+    if l.resplit_commands {
+        cmd.iter().flat_map(|a| a.split_whitespace().map(String::from).collect::<Vec<_>>()).collect()
+    } else {
+        cmd
     }
 }
 
@@ -169,6 +181,11 @@ pub fn block_text(pool: &[KeyInfo], b: &SBlock) -> String {
     let mut signed = serde_json::to_value(&final_meta).unwrap();
     let mut reread = None;
     if let SMeta::Layout(l) = &b.meta {
+        // argument boundaries of commands are written from the scenario, not through the library's
+        // serialiser (which is under test too)
+        for (k, i) in l.inspect.iter().enumerate() {
+            signed["inspect"][k]["run"] = json!(insp_cmd(l, i));
+        }
         if let Some(off) = l.offset_min {
             let tz = chrono::FixedOffset::east_opt(off * 60).unwrap();
             signed["expires"] = Value::String(l.expires.with_timezone(&tz).to_rfc3339_opts(chrono::SecondsFormat::Secs, false));
@@ -574,7 +591,7 @@ impl<'a> Gen<'a> {
                 st.prods = vec![ArtifactRule::Allow(vp("*"))];
             }
         }
-        let layout = SLayout { expires: base_now() + Duration::days(30), keys, steps, inspect, readme: "readme".into(), offset_min: None };
+        let layout = SLayout { expires: base_now() + Duration::days(30), keys, steps, inspect, readme: "readme".into(), offset_min: None, resplit_commands: false };
         let sigs = signers.iter().map(|&k| SSig { label: k, signer: k, corrupt: false }).collect();
         (SBlock { sigs, meta: SMeta::Layout(layout), signed_over: None }, dir)
     }
